@@ -115,7 +115,8 @@ pub fn check_record(v: f32, c: &Conversion, step: usize, stats: &mut Stats) -> R
     let tol_at = |target: f64| 2.0 * ulp32((target.abs().max(c.stairstep.abs() as f64)) as f32);
     let err_clamped = (sum - cl).abs();
     let ok_clamped = err_clamped <= tol_at(cl);
-    let ok_raw = v.is_finite() && (sum - v as f64).abs() <= tol_at(v as f64);
+    // outside [0,10] the record may reproduce the input itself; for an infinite input that means the same infinity
+    let ok_raw = if v.is_infinite() { sum == v as f64 } else { (sum - v as f64).abs() <= tol_at(v as f64) };
     if inside {
         stats.ratio("reconstruction_error/2ulp", err_clamped / tol_at(cl));
     }
